@@ -557,6 +557,54 @@ def sincos(L):
     return _trig_pair(L)
 
 
+def deep_substitute(e, mapping, _memo=None):
+    """replace base atoms (by id) with elements EVERYWHERE, also inside the arguments of function symbols, radicands and
+    denominators (the defined atoms are rebuilt from their substituted definitions, so x/1, sqrt(1), sin(0) ... simplify)"""
+    if not mapping:
+        return e
+    memo = {} if _memo is None else _memo
+    K = CTX.kind
+
+    def atom_el(v):
+        r = memo.get(v)
+        if r is not None:
+            return r
+        kd = K[v]
+        if v in mapping:
+            r = _el(mapping[v])
+        elif kd[0] == 'base':
+            r = El.a(v)
+        elif kd[0] == 'sqrt':
+            r = sqrt(deep_substitute(kd[1], mapping, memo))
+        elif kd[0] == 'inv':
+            r = inv(deep_substitute(kd[1], mapping, memo))
+        elif kd[0] == 'fn':
+            args = [deep_substitute(a, mapping, memo) for a in kd[2]]
+            if kd[1] == 'idiv' and len(args) == 2 and eq(args[1], ONE):
+                r = args[0]
+            else:
+                r = fn(kd[1], *args)
+        else:
+            r = El.a(v)
+        memo[v] = r
+        return r
+    touched = False
+    for v in e.atoms():
+        if v in mapping or K[v][0] != 'base':
+            touched = True
+            break
+    if not touched:
+        return e
+    out = ZERO
+    for m, c in e.t.items():
+        term = El.c(c)
+        for v, k in m:
+            x = atom_el(v)
+            term = term * (x ** k if k >= 0 else inv(x ** (-k)))
+        out = out + term
+    return out
+
+
 def fn(name, *args):
     """application of an uninterpreted function symbol, keyed by the canonical form of its arguments"""
     args = tuple((a.norm() if a.has_defined() else a) for a in map(_el, args))
